@@ -11,7 +11,8 @@ sys.path.insert(0, os.path.dirname(os.path.dirname(os.path.abspath(__file__))))
 import buildlib  # noqa: E402
 
 
-FUZZ_RUNS = {"thorough": 5000000}
+FUZZ_RUNS = {"thorough": 6000000}
+FUZZ_JOBS = 6
 FUZZ_FLAGS = "-O1 -g -fsanitize=%s,address,undefined -fno-sanitize=object-size -fno-sanitize-recover=all"
 
 
@@ -85,14 +86,29 @@ def fuzz_step(tier, seed):
         return [{"t": "fatal", "reason": err}]
     work = tempfile.mkdtemp(prefix="verif-c10-fuzz-")
     try:
-        os.makedirs(os.path.join(work, "corpus"))
+        # FUZZ_JOBS independent campaigns (own corpus, own -seed), each a share of the input budget, side by side
+        from concurrent.futures import ThreadPoolExecutor
+        total = int(os.environ.get("VERIF_FUZZ_RUNS", FUZZ_RUNS[tier]))
         os.makedirs(os.path.join(work, "art"))
-        rc, text = run_fuzzer_once(exe, ["-runs=%d" % int(os.environ.get("VERIF_FUZZ_RUNS", FUZZ_RUNS[tier])), "-seed=%d" % (int(seed) % 2000000000 + 1), "-max_len=128", "-close_fd_mask=1",
-                                         "-artifact_prefix=%s/art/" % work, "-print_final_stats=1", "corpus"], work, 3 * 3600)
-        if rc is None:
+        def campaign(k):
+            os.makedirs(os.path.join(work, "corpus%d" % k))
+            return run_fuzzer_once(exe, ["-runs=%d" % (total // FUZZ_JOBS), "-seed=%d" % ((int(seed) * 131 + k * 7919) % 2000000000 + 1), "-max_len=128", "-close_fd_mask=1",
+                                         "-artifact_prefix=%s/art/" % work, "-print_final_stats=1", "corpus%d" % k], work, 2 * 3600)
+        with ThreadPoolExecutor(max_workers=FUZZ_JOBS) as ex:
+            outs = list(ex.map(campaign, range(FUZZ_JOBS)))
+        if any(rc is None for rc, _ in outs):
             return [{"t": "inconclusive", "reason": "fuzzing run timed out"}]
         recs = []
-        m = re.search(r"VERIF-FUZZ-STATS inputs=(\d+) calls=(\d+) exits=(\d+)", text)
+        stats = [re.search(r"VERIF-FUZZ-STATS inputs=(\d+) calls=(\d+) exits=(\d+)", t) for _, t in outs]
+        bad = [t for rc, t in outs if rc != 0]
+        text = bad[0] if bad else outs[0][1]
+        rc = 1 if bad else 0
+        m = None
+        if all(stats):
+            class M:   # summed statistics of the campaigns
+                def __init__(self, v): self.v = v
+                def group(self, i): return str(self.v[i - 1])
+            m = M([sum(int(x.group(i)) for x in stats) for i in (1, 2, 3)])
         arts = sorted(os.listdir(os.path.join(work, "art")))
         if arts:
             data = open(os.path.join(work, "art", arts[0]), "rb").read()
@@ -186,7 +202,7 @@ PROP = {
     "floors": {"quick": {"cases": 2400, "distinct_nontrivial": 4700},
                "thorough": {"cases": 30000, "distinct_nontrivial": 5000, "clauses": {"memcheck:accepted-side-returns": 300, "memcheck:rejected-side-exits-with-diagnostic": 500}}},
     "exhaustive": {"quick": ["the guard catalogue (every entry run in both flavours)"], "thorough": ["the guard catalogue (every entry run in both flavours)"]},
-    "technique": "runtime monitoring: one forked child per request under gcc ASan+UBSan, process-outcome oracle (exit status, diagnostic bytes, sanitizer reports); thorough tier: coverage-guided API-sequence fuzzing (clang libFuzzer + ASan + UBSan, 5e6 inputs, exit interposed) and the catalogue again under valgrind memcheck",
+    "technique": "runtime monitoring: one forked child per request under gcc ASan+UBSan, process-outcome oracle (exit status, diagnostic bytes, sanitizer reports); thorough tier: coverage-guided API-sequence fuzzing (clang libFuzzer + ASan + UBSan, 6e6 inputs, exit interposed) and the catalogue again under valgrind memcheck",
     "level_text": "Every catalogued guard (both sides) and thousands of random requests around 13 guard families were executed against the real "
                   "library in an ASan+UBSan build and an -O2 build; each outcome (returned / exit(EXIT_FAILURE)+diagnostic / other exit / signal / sanitizer report) "
                   "was classified by the parent. Exploration: it shows the property on the requests run, not on all inputs.",
@@ -196,4 +212,4 @@ PROP = {
                                  "ASan/UBSan red zones see adjacent overruns only"],
 }
 PROP["level_text"] += ' The catalogue has grown to about 1300 requests: guards after call histories, after shape modifiers (Resize, assignment of another size), on tables scaled by 2^-43..2^43 and at 1e-3/1e-6/1e-9 of the extrapolation tolerance.'
-PROP["level_text"] += " Thorough tier: 5e6 coverage-guided API sequences (libFuzzer, clang ASan+UBSan) on pools of Vector/Matrix/Interpolation objects and the guarded free functions, judged for memory safety and failure status only."
+PROP["level_text"] += " Thorough tier: 6e6 coverage-guided API sequences (libFuzzer, clang ASan+UBSan) on pools of Vector/Matrix/Interpolation objects and the guarded free functions, judged for memory safety and failure status only."
